@@ -62,7 +62,7 @@ let handle (fs : string list) : string =
       let int_of s = (try snd (List.assoc s table) with Not_found ->
                         if ascii_digits s then Some (dval s) else None) in
       let d = parse_doc rest' [] in
-      (match run isdigit int_of (b_of sort) (b_of trans) d with
+      (match run isdigit int_of docutils_footnotes (b_of sort) (b_of trans) d with
        | Raise e -> "!" ^ exn_name e
        | Ok r ->
            String.concat " # " [
